@@ -2,6 +2,7 @@ import Anything.Model.Grammar
 import Anything.Model.Number
 import Anything.Model.UnitWord
 import Anything.Model.Compound
+import Anything.Model.RatNum
 /-!
 # Model of `src/eval.rs`, `src/eval/builtin.rs`, `src/query.rs`
 
@@ -230,46 +231,32 @@ def one (s e : Nat) (args : List Numeric) : EvalM Numeric :=
   | [a] => pure a
   | _ => err .argumentMismatch s e
 
-/-- num-rational `Ratio::round` (half away from zero), `floor`, `ceil`, `trunc`. -/
-def ratTrunc (x : Rat) : Int := if 0 ≤ x then x.floor else -((-x).floor)
-def ratRound (x : Rat) : Int :=
-  -- mirrors num-rational: compare the fractional part with one half
-  let t := ratTrunc x
-  let fract := x - t
-  let half : Rat := 1 / 2
-  if fract ≥ half || -fract ≥ half then (if 0 ≤ x then t + 1 else t - 1) else t
-
-/-- `Ratio::to_i32`: truncated integer part if it fits. -/
-def toI32 (x : Rat) : Option Int :=
-  let t := ratTrunc x
-  if t < -2147483648 || t > 2147483647 then none else some t
-
 def builtinRound (cfg : Cfg) (s e : Nat) (args : List Numeric) : EvalM Numeric :=
   match args with
   | [first] =>
-    let v : Rat := if first.value.den = 1 then first.value else (ratRound first.value : Rat)
+    let v : Rat := if first.value.den = 1 then first.value else (RatNum.round first.value : Rat)
     pure { first with value := v }
   | [first, second] =>
-    match toI32 second.value with
+    match RatNum.toI32 second.value with
     | none => err .badArgument s e
     | some n =>
       let v : Rat :=
         if n ≥ 0 && first.value.den = 1 then first.value
-        else if n = 0 then (ratRound first.value : Rat)
+        else if n = 0 then (RatNum.round first.value : Rat)
         else
           let ten := ratZPow 10 n
-          ((ratRound (first.value * ten) : Int) : Rat) / ten
+          ((RatNum.round (first.value * ten) : Int) : Rat) / ten
       if cfg.debug && !(n > 0 || v.den = 1) then EvalM.throw (.panic "round debug_assert")
       else pure { first with value := v }
   | _ => err .argumentMismatch s e
 
 def builtinFloor (s e : Nat) (args : List Numeric) : EvalM Numeric := do
   let first ← one s e args
-  pure { first with value := (first.value.floor : Rat) }
+  pure { first with value := (RatNum.floor first.value : Rat) }
 
 def builtinCeil (s e : Nat) (args : List Numeric) : EvalM Numeric := do
   let first ← one s e args
-  pure { first with value := ((-((-first.value).floor) : Int) : Rat) }
+  pure { first with value := (RatNum.ceil first.value : Rat) }
 
 /-- The delayed first operand of an OPERATION. -/
 inductive Delayed
@@ -394,12 +381,14 @@ def lookup (cfg : Cfg) (a : At) : EvalM Numeric :=
 end
 
 mutual
-def depth : Tree → Nat
+/-- Number of tree elements: bounds both the nesting depth and the length of
+every operator chain, hence the fuel `eval` needs. -/
+def size : Tree → Nat
   | .tok _ _ _ => 1
-  | .node _ _ ks => depthList ks + 1
-def depthList : List Tree → Nat
+  | .node _ _ ks => sizeList ks + 1
+def sizeList : List Tree → Nat
   | [] => 0
-  | t :: ts => max (depth t) (depthList ts)
+  | t :: ts => size t + sizeList ts
 end
 
 /-- `Query`: evaluate every root child that is not a WHITESPACE token. -/
@@ -408,7 +397,7 @@ def queryLoop (cfg : Cfg) : List At → List Desc → List (Except EvalErr Numer
   | a :: rest, d =>
     if a.t.kind == .WHITESPACE then queryLoop cfg rest d
     else
-      let (r, d') := eval cfg (2 * depth a.t + 2) a d
+      let (r, d') := eval cfg (2 * size a.t + 2) a d
       let (rs, d'') := queryLoop cfg rest d'
       (r :: rs, d'')
 
